@@ -3,6 +3,7 @@ package t1gen
 import (
 	"bytes"
 	"math"
+	"sort"
 	"strconv"
 	"time"
 
@@ -449,3 +450,93 @@ func AllInt(g *type1.Glyph) bool {
 
 // FixedZone returns an unnamed zone with the given offset.
 func FixedZone(off int) *time.Location { return time.FixedZone("", off) }
+
+// Sharing describes one glyph of a font that shares memory with another
+// glyph, as fonts built by programs do (an alias name for the same glyph, a
+// glyph made by appending to another glyph's outline or stem list).  It is
+// kept apart from the font value so that a stored case can be rebuilt.
+type Sharing struct {
+	Name string `json:"name"` // name of the added glyph
+	Of   string `json:"of"`   // the glyph it shares with
+	// Mode 0: the same *Glyph under both names.
+	// Mode 1: a glyph of its own whose Cmds continue the backing array of
+	// Of's Cmds (same first element, greater length), same widths.
+	// Mode 2: the same for HStem / VStem.
+	Mode  int `json:"mode"`
+	Extra int `json:"extra"` // how many commands / stem pairs are appended
+}
+
+// ApplySharing returns a copy of f (new glyph map, the glyphs named by Of
+// re-allocated with spare capacity) with the shared glyphs added.
+func ApplySharing(f *type1.Font, sh []Sharing) *type1.Font {
+	if len(sh) == 0 {
+		return f
+	}
+	g := *f
+	g.Glyphs = make(map[string]*type1.Glyph, len(f.Glyphs)+len(sh))
+	for n, gl := range f.Glyphs {
+		g.Glyphs[n] = gl
+	}
+	for _, s := range sh {
+		src, ok := g.Glyphs[s.Of]
+		if !ok {
+			continue
+		}
+		if _, dup := g.Glyphs[s.Name]; dup {
+			continue
+		}
+		switch s.Mode {
+		case 0:
+			g.Glyphs[s.Name] = src
+		case 1:
+			base := *src
+			base.Cmds = append(make([]type1.GlyphOp, 0, len(src.Cmds)+3*s.Extra+4), src.Cmds...)
+			g.Glyphs[s.Of] = &base
+			ext := base
+			ext.Cmds = base.Cmds[:len(base.Cmds):cap(base.Cmds)]
+			for i := 0; i < s.Extra; i++ {
+				ext.MoveTo(float64(10*i+1), float64(7*i+2))
+				ext.LineTo(float64(10*i+30), float64(7*i+2))
+				ext.LineTo(float64(10*i+30), float64(7*i+40))
+				ext.ClosePath()
+			}
+			g.Glyphs[s.Name] = &ext
+		default:
+			base := *src
+			base.HStem = append(make([]funit.Int16, 0, len(src.HStem)+2*s.Extra+2), src.HStem...)
+			base.VStem = append(make([]funit.Int16, 0, len(src.VStem)+2*s.Extra+2), src.VStem...)
+			g.Glyphs[s.Of] = &base
+			ext := base
+			ext.HStem = base.HStem[:len(base.HStem):cap(base.HStem)]
+			ext.VStem = base.VStem[:len(base.VStem):cap(base.VStem)]
+			for i := 0; i < s.Extra; i++ {
+				ext.HStem = append(ext.HStem, funit.Int16(700+30*i), funit.Int16(720+30*i))
+				ext.VStem = append(ext.VStem, funit.Int16(800+30*i), funit.Int16(815+30*i))
+			}
+			g.Glyphs[s.Name] = &ext
+		}
+	}
+	return &g
+}
+
+// GenSharing draws 0-3 sharing glyphs for f (none for most fonts).
+func GenSharing(t *rapid.T, f *type1.Font) []Sharing {
+	if rapid.IntRange(0, 3).Draw(t, "sharing") != 0 || len(f.Glyphs) == 0 {
+		return nil
+	}
+	names := make([]string, 0, len(f.Glyphs))
+	for n := range f.Glyphs {
+		names = append(names, n)
+	}
+	sort.Strings(names)
+	var sh []Sharing
+	for i := rapid.IntRange(1, 3).Draw(t, "nsharing"); i > 0; i-- {
+		sh = append(sh, Sharing{
+			Name:  []string{"shareA", "Zshare", "mid.share"}[i-1],
+			Of:    names[rapid.IntRange(0, len(names)-1).Draw(t, "shareof")],
+			Mode:  rapid.IntRange(0, 2).Draw(t, "sharemode"),
+			Extra: rapid.IntRange(1, 3).Draw(t, "shareextra"),
+		})
+	}
+	return sh
+}
